@@ -380,3 +380,127 @@ Proof.
   - unfold estimate_doc. simpl. unfold ls_doc. field. exact Hn.
   - unfold estimate_thr. apply Qleb_le in Ha. rewrite Ha. unfold estimate. simpl. unfold dp. field. exact Hn.
 Qed.
+
+(* ================================================================== measurements on catalogs *)
+(* the total weight of a sample in a bin does not depend on how its records are grouped in patches:
+   the per-patch weights that the jackknife uses add up to the weight of the whole catalog *)
+Lemma weight_of_app l1 l2 : weight_of (l1 ++ l2) == weight_of l1 + weight_of l2.
+Proof. unfold weight_of. rewrite map_app. apply qsum_app. Qed.
+
+Lemma cell_members_app right binned lo hi l1 l2 :
+  cell_members right binned lo hi (l1 ++ l2)
+  = cell_members right binned lo hi l1 ++ cell_members right binned lo hi l2.
+Proof. unfold cell_members, bin_members. destruct binned; [apply filter_app | reflexivity]. Qed.
+
+Theorem side_total_partition right binned lo hi (patches : list (list cobj)) :
+  qsum (map (cell_weight right binned lo hi) patches) == cell_weight right binned lo hi (concat patches).
+Proof.
+  induction patches as [|l ps IH]; simpl.
+  - unfold cell_weight, cell_members, bin_members. destruct binned; reflexivity.
+  - unfold cell_weight in *. rewrite cell_members_app, weight_of_app, IH. reflexivity.
+Qed.
+
+(* the denominator of a term of a measured cross-correlation container = product of the two catalogs'
+   total weights in the bin ... *)
+Theorem meas_denominator_cross right (s1 s2 : side) lo hi :
+  norm_denominator false (bin_weights right s1 lo hi) (bin_weights right s2 lo hi)
+  == side_total right s1 lo hi * side_total right s2 lo hi.
+Proof. unfold norm_denominator, bin_weights, side_total. rewrite !side_total_partition. reflexivity. Qed.
+
+(* ... of an autocorrelation container = half the squared total weight of the catalog in the bin ... *)
+Theorem meas_denominator_auto right (s : side) lo hi :
+  norm_denominator true (bin_weights right s lo hi) (bin_weights right s lo hi)
+  == (1 # 2) * (side_total right s lo hi * side_total right s lo hi).
+Proof.
+  unfold norm_denominator. rewrite upper_half_sum_sq. unfold bin_weights, side_total.
+  rewrite !side_total_partition. reflexivity.
+Qed.
+
+(* ... and a side read without binning contributes the weight of the whole catalog in every bin *)
+Theorem side_total_unbinned right ps lo hi :
+  side_total right {| sd_binned := false; sd_patches := ps |} lo hi = weight_of (concat ps).
+Proof. reflexivity. Qed.
+
+Theorem side_total_binned right ps lo hi :
+  side_total right {| sd_binned := true; sd_patches := ps |} lo hi
+  = weight_of (filter (fun o => in_bin right lo hi (fst o)) (concat ps)).
+Proof. reflexivity. Qed.
+
+(* the documented terms of a measured container, bin by bin *)
+Lemma map2_map_l {A B C D} (f : B -> C -> D) (g : A -> B) l1 l2 :
+  map2 f (map g l1) l2 = map2 (fun a c => f (g a) c) l1 l2.
+Proof. revert l2. induction l1 as [|a l1 IH]; intros [|c l2]; simpl; try reflexivity. f_equal. apply IH. Qed.
+Lemma map2_map_r {A B C D} (f : A -> C -> D) (g : B -> C) l1 l2 :
+  map2 f l1 (map g l2) = map2 (fun a b => f a (g b)) l1 l2.
+Proof. revert l2. induction l1 as [|a l1 IH]; intros [|c l2]; simpl; try reflexivity. f_equal. apply IH. Qed.
+Lemma map2_diag {A B} (f : A -> A -> B) l : map2 f l l = map (fun a => f a a) l.
+Proof. induction l as [|a l IH]; simpl; [reflexivity | f_equal; exact IH]. Qed.
+
+Theorem meas_doc_denominators right edges m :
+  map2 (norm_denominator (mc_auto m)) (pc_w1 (meas_pc right edges m)) (pc_w2 (meas_pc right edges m))
+  = map (fun lh => norm_denominator (mc_auto m) (bin_weights right (mc_s1 m) (fst lh) (snd lh))
+                                    (bin_weights right (mc_s2 m) (fst lh) (snd lh))) (bin_bounds edges).
+Proof. simpl. unfold side_weights. rewrite map2_map_l, map2_map_r, map2_diag. reflexivity. Qed.
+
+(* a term determines the product of weights it was normalised with: wherever pairs were counted, any
+   other denominator (a weight missing from a total) gives a different term *)
+Theorem term_determines_denominator c d d' :
+  ~ c == 0 -> ~ d == 0 -> ~ d' == 0 -> c / d == c / d' -> d == d'.
+Proof.
+  intros Hc Hd Hd' H.
+  assert (E : c * d' == c * d).
+  { transitivity (c / d * (d * d')); [field; exact Hd|]. rewrite H. field. exact Hd'. }
+  apply Qmult_inj_l in E; [symmetry; exact E | exact Hc].
+Qed.
+
+(* the contrast implementation agrees with the catalogs' weights whenever no (bin, patch) cell of
+   either catalog is empty ... *)
+Definition all_cells_populated (right : bool) (edges : list Q) (s : side) : Prop :=
+  forall lh l, In lh (bin_bounds edges) -> In l (sd_patches s) ->
+               cell_empty right (sd_binned s) (fst lh) (snd lh) l = false.
+
+Lemma mask_row_id right binned lo hi partner w :
+  length partner = length w -> (forall l, In l partner -> cell_empty right binned lo hi l = false) ->
+  mask_row right binned lo hi partner w = w.
+Proof.
+  unfold mask_row. revert w. induction partner as [|l ps IH]; intros [|x w] Hlen H; simpl in *; try reflexivity; try discriminate.
+  rewrite (H l (or_introl eq_refl)). f_equal. apply IH; [lia | intros l' Hl'; apply H; right; exact Hl'].
+Qed.
+
+Lemma side_weights_skip_id right edges partner mine :
+  length (sd_patches partner) = length (sd_patches mine) -> all_cells_populated right edges partner ->
+  side_weights_skip right edges partner mine = side_weights right edges mine.
+Proof.
+  intros Hlen H. unfold side_weights_skip, side_weights. apply map_ext_in. intros lh Hlh.
+  apply mask_row_id; [unfold bin_weights; rewrite map_length; exact Hlen | intros l Hl; apply H; assumption].
+Qed.
+
+Theorem skip_agrees_populated right edges m :
+  length (sd_patches (mc_s1 m)) = length (sd_patches (mc_s2 m)) ->
+  all_cells_populated right edges (mc_s1 m) -> all_cells_populated right edges (mc_s2 m) ->
+  meas_pc_skip right edges m = meas_pc right edges m.
+Proof.
+  intros Hlen H1 H2. unfold meas_pc_skip, meas_pc. f_equal; apply side_weights_skip_id; auto.
+Qed.
+
+(* ... and is not the documented estimator on a sparse reference sample: three unlinked patches, two
+   bins (0, 1], (1, 2]; the reference sample has no object of the second bin in patch 0 and none of the
+   first bin in patch 2; the unknown sample (weights 1, 2, 1) and the reference randoms populate
+   everything.  DD/RD - 1 of the second bin is (2/(2*4)) / (6/(3*4)) - 1 = -1/2, with the unknown weight
+   of patch 0 dropped from the DD denominator it is (2/(2*3)) / (6/(3*4)) - 1 = -1/3; of the first bin
+   (3/(2*4)) / (4/(3*4)) - 1 = 1/8 resp. (3/(2*3)) / (4/(3*4)) - 1 = 1/2. *)
+Definition ex_ref : side := {| sd_binned := true; sd_patches := [[(1 # 2, 1)]; [(1 # 2, 1); (3 # 2, 1)]; [(3 # 2, 1)]] |}.
+Definition ex_rand : side := {| sd_binned := true; sd_patches := [[(1 # 2, 1); (3 # 2, 1)]; [(1 # 2, 1); (3 # 2, 1)]; [(1 # 2, 1); (3 # 2, 1)]] |}.
+Definition ex_unk : side := {| sd_binned := false; sd_patches := [[(0, 1)]; [(0, 2)]; [(0, 1)]] |}.
+Definition ex_dd : mcounts :=
+  {| mc_auto := false; mc_counts := [[[1; 0; 0]; [0; 2; 0]; [0; 0; 0]]; [[0; 0; 0]; [0; 1; 0]; [0; 0; 1]]];
+     mc_s1 := ex_ref; mc_s2 := ex_unk |}.
+Definition ex_rd : mcounts :=
+  {| mc_auto := false; mc_counts := [[[1; 0; 0]; [0; 2; 0]; [0; 0; 1]]; [[2; 0; 0]; [0; 2; 0]; [0; 0; 2]]];
+     mc_s1 := ex_rand; mc_s2 := ex_unk |}.
+
+Theorem skip_refuted : exists right edges dd rd,
+  res_values (corr_data_doc (meas_pc right edges dd) None (Some (meas_pc right edges rd)) None) = [1 # 8; -(1 # 2)]
+  /\ res_values (corr_data (meas_pc right edges dd) None (Some (meas_pc right edges rd)) None) = [1 # 8; -(1 # 2)]
+  /\ res_values (corr_data (meas_pc_skip right edges dd) None (Some (meas_pc_skip right edges rd)) None) = [1 # 2; -(1 # 3)].
+Proof. exists true, [0; 1; 2], ex_dd, ex_rd. vm_compute. repeat split; reflexivity. Qed.
